@@ -294,12 +294,62 @@ fn c14() -> Check {
     }
 }
 
+/// Side check of the C19 oracle itself: the pure `Backoff` generator against the closed formula
+/// min(initial * mult^k, max), None after max_count advances, reset; all small tuples.
+pub struct BackoffFamily;
+impl Family for BackoffFamily {
+    fn name(&self) -> &'static str {
+        "backoff-formula"
+    }
+    fn runs(&self, _tier: Tier) -> u64 {
+        6 * 6 * 4 * 6
+    }
+    fn generate(&self, _batch_seed: u64, index: u64, _tier: Tier) -> (Value, u64) {
+        let initial = [1u64, 3, 10, 200, 1000, 5000][(index % 6) as usize];
+        let max = [1u64, 5, 100, 300, 10_000, 300_000][((index / 6) % 6) as usize];
+        let mult = [1u32, 2, 3, 10][((index / 36) % 4) as usize];
+        let max_count = [0u32, 1, 2, 3, 5, 12][((index / 144) % 6) as usize];
+        (serde_json::json!({"initial_ms": initial, "max_ms": max, "mult": mult, "max_count": max_count}), index)
+    }
+    fn records_decisions(&self) -> bool {
+        false
+    }
+    fn exec(&self, plan: &Value, _sched: &Sched, _record: bool) -> Outcome {
+        use std::time::Duration;
+        let g = |k: &str| plan[k].as_u64().unwrap_or(1);
+        let (initial, max, mult, max_count) = (g("initial_ms"), g("max_ms"), g("mult") as u32, g("max_count") as u32);
+        let mut o = Outcome { nontrivial: true, digest: initial ^ (max << 16) ^ ((mult as u64) << 40) ^ ((max_count as u64) << 48), steps: 1, ..Default::default() };
+        let mut b = penguin_mux::timing::Backoff::new(Duration::from_millis(initial), Duration::from_millis(max), mult, max_count);
+        for round in 0..2 {
+            let mut cur = initial as u128;
+            for k in 0..20u32 {
+                let got = b.advance();
+                let want = if max_count != 0 && k >= max_count { None } else { Some(Duration::from_millis(cur.min(max as u128) as u64)) };
+                if got != want {
+                    o.violate("C19:backoff-generator", format!("Backoff(initial {initial} ms, max {max} ms, x{mult}, max_count {max_count}) round {round}: advance #{k} returned {got:?}, the formula gives {want:?}"));
+                    return o;
+                }
+                cur = (cur.min(max as u128)) * mult as u128;
+            }
+            b.reset();
+        }
+        o.probe("backoff-tuples-checked", 1);
+        o
+    }
+    fn rule(&self) -> &'static str {
+        "side check of the oracle's formula: all 864 (initial, max, multiplier, max_count) tuples from small grids, 20 advances, reset, 20 advances again, against min(initial * mult^k, max) / None after max_count."
+    }
+    fn exhaustive(&self, _tier: Tier) -> bool {
+        true
+    }
+}
+
 fn c19() -> Check {
     Check {
         property: "C19",
         engine: "syssim",
         level: "fault_enumeration",
-        families: vec![Box::new(C19Family)],
+        families: vec![Box::new(C19Family), Box::new(BackoffFamily)],
         required_probes: vec!["retry-checked", "stream-request-timeout-checked", "backoff-capped", "gave-up-after-max-retries", "non-retryable-failure", "established-connection-lost", "parked-local-connection-served", "fault:tcp-reset", "fault:tcp-refused"],
         assumptions: vec!["zero network latency in this family so that retry instants are exact; TLS is not simulated (ws://)", "the client's keepalive is off (Multiplexor::new_with_opt hard-wires std::time::Instant; keepalive is decided in C16)"],
         real: vec!["penguin client: client_main_inner, retry loop + Backoff, ws_connect::handshake (timeout select), on_connected, get_send_stream_chan, handle_remote/tcp listener", "tokio-tungstenite client and server", "penguin server run_listener + hyper + forwarder (healthy phases)", "penguin-mux with the real tungstenite WebSocket"],
